@@ -3171,7 +3171,10 @@ class Series(TwoPortThing):
         n2, n1, n4, n3 = netlist._make_nodes(n2, n1, n4, n3)
 
         nets = []
-        nets.append(self.args[0]._net_make(netlist, n1, n3, dir='right'))
+        # The source vector is V2b = Voc (see TwoPortBModel: V2b has
+        # its positive terminal at the output) so the positive node
+        # of the one-port is the output node n3.
+        nets.append(self.args[0]._net_make(netlist, n3, n1, dir='left'))
         nets.append('W %s %s; right' % (n2, n4))
         nets.append('O %s %s; down' % (n1, n2))
         nets.append('O %s %s; down' % (n3, n4))
